@@ -101,6 +101,7 @@ def run_bounded(prop, tier, seed):
         os.unlink(out)
     env = dict(os.environ)
     env["PYTHONPATH"] = "%s:%s" % (REPO, HERE)
+    env["PYVC_REPO"] = REPO
     env["PYTHONWARNINGS"] = "ignore"
     py = BOUNDED_PY.get(prop, VENV_PY)
     t0 = time.time()
@@ -135,6 +136,7 @@ def run_replay(path, timeout=120):
     """-> (reproduced: bool|None, output)"""
     env = dict(os.environ)
     env["PYTHONPATH"] = REPO
+    env["PYVC_REPO"] = REPO
     env["PYTHONWARNINGS"] = "ignore"
     py = VENV_PY
     try:
